@@ -574,7 +574,7 @@ long vrt_syscall(long nr, ...)
 	va_list ap; va_start(ap, nr);
 	if (nr == SYS_futex) {
 		int32_t *u = va_arg(ap, int32_t *); int op = va_arg(ap, int); int32_t val = va_arg(ap, int32_t); va_end(ap);
-		struct nm *n = nm_find(u); const char *vn_ = n ? n->n : "?";
+		struct nm *n = nm_find(u); char vnb[40]; snprintf(vnb, sizeof vnb, "%s", n ? n->n : "?"); const char *vn_ = vnb;	/* copy: the name table may be reshuffled (vrt_unname) while this thread sleeps */
 		if (self < 0) { if (op == 0 && *u == val) { fprintf(stderr, "VRT-FAIL main thread would block in futex\n"); _exit(3); } errno = EAGAIN; return op == 0 ? -1 : 0; }
 		lazy_plain();
 		if (futex_enosys) {
